@@ -102,6 +102,7 @@ class Policy:
         self.discard = 0.7
         self.exhaust = False            # draw games: discard so that the deck runs out exactly
         self.allow_orphan = False
+        self.muck_allin = False         # voluntary mucks also in all-in showdowns (when a tabled hand covers every pot)
         self.probe_level = 1
         self.probe_every = 1.0
         self.max_runout = 3
@@ -118,11 +119,11 @@ def room_for_runouts(st: State, r: int) -> bool:
     return need <= len(st.deck_cards)
 
 
-def safe_to_muck(st: State, i: int) -> bool:
+def safe_to_muck(st: State, i: int, allin_too: bool = False) -> bool:
     """A voluntary muck that cannot leave a pot without a live eligible player who has tabled his hand: not in an all-in
     showdown, and somebody else who is in every pot that i is in has already shown.  (Mucks outside this rule run into
     the known 'orphan pot' family; they are exercised separately.)"""
-    if st.all_in_status:
+    if st.all_in_status and not allin_too:
         return False
     pots = list(st.pots)
     for j in st.player_indices:
@@ -268,7 +269,7 @@ def legal_moves(st: State, rng: random.Random, pol: Policy, werr: bool):
             hc = [card_int(c) for c in st.hole_cards[who]]
             if 52 in hc:
                 # a hand with unknown cards cannot be tabled as it is: muck it, or table known cards in their place
-                if rng.random() < pol.muck and (pol.allow_orphan or safe_to_muck(st, who)):
+                if rng.random() < pol.muck and (pol.allow_orphan or safe_to_muck(st, who, pol.muck_allin)):
                     mv.append((1, 'show_or_muck_hole_cards', A(p=p, mode='bool', b=False)))
                 else:
                     d = dealable(st)
@@ -284,7 +285,7 @@ def legal_moves(st: State, rng: random.Random, pol: Policy, werr: bool):
                 k = rng.randint(1, len(hc))
                 mv.append((1, 'show_or_muck_hole_cards', A(p=p, mode='cards', cards=rng.sample(hc, k))))
             elif rng.random() < pol.manual_show:
-                b = rng.random() >= pol.muck or not (pol.allow_orphan or safe_to_muck(st, who))
+                b = rng.random() >= pol.muck or not (pol.allow_orphan or safe_to_muck(st, who, pol.muck_allin))
                 mv.append((1, 'show_or_muck_hole_cards', A(p=p, mode='bool', b=b)))
             else:
                 mv.append((1, 'show_or_muck_hole_cards', A(p=p)))
